@@ -59,7 +59,8 @@ def value_text(ty, v):
     if ty == STRING:
         return '"%s"' % v.replace('"', '""')
     if is_sort(ty):
-        return "(as @%s_%d %s)" % (ty[1], v, ty[1])
+        from vf.smtprint import sort_text
+        return "(as @%s_%d %s)" % ("".join(c if c.isalnum() else "_" for c in ty[1]), v, sort_text(ty))
     raise ValueError(ty)
 
 
